@@ -344,6 +344,23 @@ def littag_family(seed, n, maxlen=4, budget=5000):
     return out
 
 
+def wide_family(seed, n, maxlen=5, budget=6000):
+    """adjacent groups that declare an optional argument in front of their tag (`[--scale N] --rect --w W`): a block
+    may start with any named member of the group - engine GroupLine"""
+    out = []
+    for i in range(n):
+        wrap = ["many", "opt", "one"][i % 3]
+        members = [ar("sc", "opt", "int", "--scale"), ar("w", "one", "int", "--ww")] + ([sw("q", "-q")] if i % 2 else [])
+        g = adjf("g0", wrap, rf("h0", "one", "--rect"), *members)
+        g["head_at"] = 1
+        named = [g] if i % 4 < 2 else [sw("o1", "-v"), g]
+        d = mkdef(f"wide{seed}_{i}", level(named, NOTAIL if i % 3 else postail(pos("p0", "opt"))), maxlen=maxlen, extras=(),
+                  spells=("sep",), words=("1",))
+        galpha_trim(d, budget)
+        out.append(d)
+    return out
+
+
 def posfirst_family(seed, n, maxlen=4, budget=5000):
     """a positional item declared in front of a name-led adjacent group (`NAME [--at X Y]`) - engine GroupLine"""
     out = []
